@@ -321,7 +321,8 @@ def observe_file(path):
     sp = []
     for ln in mf.lines:
         if getattr(ln, "Attribute", None) in ("timeSignature", "keySignature") and hasattr(ln, "Measure"):
-            sp.append(dict(attr=ln.Attribute, measure=int(ln.Measure), beat=int(ln.Beat),
+            val = [int(ln.Value.numerator), int(ln.Value.denominator)] if ln.Attribute == "timeSignature" else None
+            sp.append(dict(attr=ln.Attribute, value=val, measure=int(ln.Measure), beat=int(ln.Beat),
                            off=[int(ln.Offset.numerator), int(ln.Offset.denominator)], tib=fr(ln.TimeInBeats)))
     ped = [dict(number=64 if "ustain" in type(ln).__name__ else 67, time=int(ln.Time), value=int(ln.Value))
            for ln in mf.lines if hasattr(ln, "Time") and hasattr(ln, "Value") and not hasattr(ln, "Attribute")]
@@ -537,3 +538,544 @@ def oracle(case, obs):
     elif not same_pos(L["ksigs"], O["ksigs"]):
         bad.append(("ksig_value", "key signatures loaded %s, written %s" % (fl(L["ksigs"]), fl(O["ksigs"]))))
     return bad
+
+
+# ----------------------------------------------------------------------------
+# correspondence: the same numbers as Coq terms (checked by Model/C08.v)
+
+IMPORTS = "From PV Require Import Lib.Base Model.C08."
+DEFS = """
+Definition chk_case_export (c : list (Z * Z * Z) * Z * list ((Z * Z) * (Z * Z * Q * Q))) : bool :=
+  let '(tab, dpq, ns) := c in forallb (fun n => chk_export (tab, dpq, fst n, snd n)) ns.
+"""
+
+
+def dec4(x):
+    """a beat time of the file (4 decimals, parsed to float by the library) as the decimal it denotes"""
+    return Fraction(x).limit_denominator(10000)
+
+
+def qfrac(num, den, tup=None):
+    return Fraction(int(num), int(den) * int(tup or 1))
+
+
+def measure_table(case):
+    b = case["bounds"]
+    first = 0 if case["pickup"] else 1
+    tab, cur = [], None
+    for mi in range(len(b) - 1):
+        for ts in case["tsigs"]:
+            if ts[0] == mi:
+                cur = ts
+        tab.append((first + mi, b[mi], cur[2]))
+    return tab
+
+
+def export_term(case, obs):
+    """tab, dpq, [((on, dur), (measure, beat, offset, duration))] for every score note line of the file"""
+    given = {n["id"]: n for n in case["notes"]}
+    rows, seen = [], set()
+    for ln in obs["file"]["lines"]:
+        if ln["kind"] in ("match", "deletion") and ln["sid"] in given and ln["sid"] not in seen:
+            seen.add(ln["sid"])
+            n = given[ln["sid"]]
+            if ln["dur_add"]:
+                return None
+            rows.append(ctuple([ctuple([cz(n["on"]), cz(n["dur"])]),
+                                ctuple([cz(ln["measure"]), cz(ln["beat"]), cq(qfrac(*ln["off"])), cq(qfrac(*ln["dur"]))])]))
+    tab = clist([ctuple([cz(a), cz(b), cz(c)]) for a, b, c in measure_table(case)])
+    return ctuple([tab, cz(case["divs"]), clist(rows)])
+
+
+def file_tsl(obs):
+    """mf.time_signatures: sorted by time, consecutive equal values merged -> (time in beats, den)"""
+    rows = sorted(((dec4(Fraction(sp["tib"])), sp["value"]) for sp in obs["file"]["scoreprops"] if sp["attr"] == "timeSignature"),
+                  key=lambda r: r[0])
+    out = []
+    for t, v in rows:
+        if not out or out[-1][1] != v:
+            out.append((t, v))
+    return [(t, v[1]) for t, v in out]
+
+
+def import_term(case, obs):
+    snotes, seen = [], set()
+    for ln in obs["file"]["lines"]:
+        if ln["kind"] in ("match", "deletion"):
+            snotes.append(ln)
+    # sort_snotes: lexsort by (Measure, Beat, Offset), stable
+    order = sorted(range(len(snotes)), key=lambda i: (snotes[i]["measure"], snotes[i]["beat"], float(qfrac(*snotes[i]["off"]))))
+    snotes = [snotes[i] for i in order]
+    if not snotes or any(s["dur_add"] for s in snotes) or len(set(s["sid"] for s in snotes)) != len(snotes):
+        return None
+    L = obs["loaded"]
+    if len(L["quarter_durations"]) != 1 or any(s["sid"] not in L["notes"] for s in snotes):
+        return None
+    tsl = file_tsl(obs)
+    first = dec4(Fraction(snotes[0]["oib"]))
+    if first != min(dec4(Fraction(s["oib"])) for s in snotes):
+        return None
+    notes = clist([ctuple([cz(s["measure"]), cz(s["beat"]), cq(qfrac(*s["off"])), cz(s["off"][1] * (s["off"][2] or 1)),
+                           cq(qfrac(*s["dur"])), cz(s["dur"][1] * (s["dur"][2] or 1)), cq(dec4(Fraction(s["oib"])))]) for s in snotes])
+    loaded = clist([ctuple([cz(L["notes"][s["sid"]]["onset_div"]), cz(L["notes"][s["sid"]]["duration_div"])]) for s in snotes])
+    return ctuple([clist([ctuple([cq(t), cz(d)]) for t, d in tsl]), cq(first), notes, cz(L["quarter_durations"][0]), loaded])
+
+
+def tick_terms(case, obs):
+    out = []
+    lp = {n["id"]: n for n in obs["perf"]["notes"]}
+    for p in case["pnotes"]:
+        n = lp.get(fmt_pid(p["id"]))
+        if n is None:
+            continue
+        for key, tk in (("on", "on_tick"), ("off", "off_tick")):
+            t = Fraction(p[key])
+            if not near_tie(case, t):
+                out.append(ctuple([cz(case["ppq"]), cz(case["mpq"]), cq(t), cz(n[tk]), cq(Fraction(n[key]))]))
+    return out
+
+
+KIND_CODE = {"match": 0, "deletion": 1, "insertion": 2, "ornament": 3}
+
+
+class Intern(dict):
+    def __call__(self, s):
+        if s is None:
+            return None
+        if s not in self:
+            self[s] = len(self) + 1
+        return self[s]
+
+
+def cline(k, s, p):
+    return ctuple([cz(KIND_CODE[k]), copt(s, cz), copt(p, cz)])
+
+
+def classify(ml):
+    """(kind, sid, pid, left_out_tied) of a parsed note line, None for other lines"""
+    from partitura.io.matchfile_base import BaseSnoteNoteLine, BaseDeletionLine, BaseInsertionLine, BaseOrnamentLine
+
+    if isinstance(ml, BaseSnoteNoteLine):
+        return ("match", str(ml.snote.Anchor), str(ml.note.Id), False)
+    if isinstance(ml, BaseDeletionLine):
+        return ("deletion", str(ml.snote.Anchor), None, "leftOutTied" in ml.snote.ScoreAttributesList)
+    if isinstance(ml, BaseInsertionLine):
+        return ("insertion", None, str(ml.note.Id), False)
+    if isinstance(ml, BaseOrnamentLine):
+        return ("ornament", str(ml.Anchor), str(ml.note.Id), False)
+    return None
+
+
+def read_raw(path):
+    """every non-empty raw line of the file, parsed on its own through the library's line parser"""
+    from partitura.io import importmatch as IM
+    from partitura.io.matchfile_utils import Version
+
+    with open(path) as f:
+        raw = [x for x in f.read().splitlines() if x != ""]
+    version = IM.get_version(raw[0])
+    methods = IM.FROM_MATCHLINE_METHODSV1 if version >= Version(1, 0, 0) else IM.FROM_MATCHLINE_METHODSV0
+    out = []
+    cache = {}
+    for text in raw:
+        if text not in cache:
+            import contextlib, io
+            with contextlib.redirect_stdout(io.StringIO()):
+                ml = IM.parse_matchline(text, from_matchline_methods=methods, version=version)
+            cache[text] = classify(ml) if ml is not None else None
+        if cache[text] is not None:
+            out.append((text, cache[text]))
+    return out
+
+
+def resolve_spec(raw):
+    """The documented reading (Python mirror used by the direct oracle): first occurrence of every
+    text; then deletions whose score id occurs in several score-note lines are dropped; then
+    insertions whose performance id occurs in several played-note lines are dropped."""
+    seen, lines = set(), []
+    for text, c in raw:
+        if text not in seen:
+            seen.add(text)
+            lines.append(c)
+    from collections import Counter
+    sc = Counter(c[1] for c in lines if c[0] in ("match", "deletion"))
+    lines = [c for c in lines if not (c[0] == "deletion" and sc[c[1]] > 1)]
+    pc = Counter(c[2] for c in lines if c[0] in ("match", "insertion", "ornament"))
+    lines = [c for c in lines if not (c[0] == "insertion" and pc[c[2]] > 1)]
+    return lines
+
+
+def check_reader(path, label, ctx, reader_terms, align_terms, kept):
+    """O4 on one file: load_matchfile vs the documented resolution (direct) + terms for the model."""
+    from partitura.io.importmatch import load_matchfile, alignment_from_matchfile
+
+    raw = read_raw(path)
+    with warnings.catch_warnings():
+        warnings.simplefilter("ignore")
+        mf = load_matchfile(path)
+        al = alignment_from_matchfile(mf)
+    got = [c for c in (classify(ln) for ln in mf.lines) if c is not None]
+    exp = resolve_spec(raw)
+    bad = []
+    if [c[:3] for c in got] != [c[:3] for c in exp]:
+        lost = [c[:3] for c in exp if c not in got][:3]
+        extra = [c[:3] for c in got if c not in exp][:3]
+        bad.append("note lines returned by load_matchfile differ from the documented resolution: lost %s, extra/duplicated %s (%d vs %d lines)"
+                   % (lost, extra, len(got), len(exp)))
+    matches_raw = []
+    for t, c in raw:
+        if c[0] in ("match", "ornament") and c[:3] not in matches_raw:
+            matches_raw.append(c[:3])
+    got_m = [c[:3] for c in got if c[0] in ("match", "ornament")]
+    if got_m != matches_raw:
+        bad.append("match/ornament lines not kept exactly once in order: %d in file, %d loaded" % (len(matches_raw), len(got_m)))
+    msid = {c[1] for c in got if c[0] == "match"}
+    mpid = {c[2] for c in got if c[0] in ("match", "ornament")}
+    for c in got:
+        if c[0] == "deletion" and c[1] in msid:
+            bad.append("deletion of score note %s kept although it is matched" % c[1])
+        if c[0] == "insertion" and c[2] in mpid:
+            bad.append("insertion of performed note %s kept although it is matched" % c[2])
+    al_t = []
+    for a in al:
+        al_t.append((a["label"], a.get("score_id"), a.get("performance_id")))
+    exp_al = [(c[0], c[1], fmt_pid(c[2]) if c[2] is not None else None) for c in got if not c[3]]
+    if al_t != exp_al:
+        bad.append("alignment_from_matchfile differs from the note lines: %s ..." % [x for x in al_t if x not in exp_al][:3])
+    it, ii = Intern(), Intern()
+    reader_terms.append(ctuple([clist([ctuple([cz(it(t)), cline(c[0], ii(c[1]), ii(c[2]))]) for t, c in raw]),
+                                clist([cline(c[0], ii(c[1]), ii(c[2])) for c in got])]))
+    ia = Intern()
+    align_terms.append(ctuple([clist([cline(c[0], ia(c[1]), ia(fmt_pid(c[2]) if c[2] is not None else None)) for c in got if not c[3]]),
+                               clist([cline(k, ia(s), ia(p)) for k, s, p in al_t])]))
+    kept.append(label)
+    ctx.evaluations += 1
+    return bad, raw, got
+
+
+def stress_file(rng, text_lines, path):
+    """duplicate lines and add conflicting deletion / insertion lines to an exported file"""
+    out = []
+    for ln in text_lines:
+        out.append(ln)
+        if ln.startswith("snote(") and ")-note(" in ln:
+            sn, nt = ln.split(")-note(", 1)
+            r = rng.random()
+            if r < 0.15:
+                out.append(sn + ")-deletion.")
+            elif r < 0.3:
+                out.append("insertion-note(" + nt)
+            elif r < 0.36:
+                out += [sn + ")-deletion.", "insertion-note(" + nt, sn + ")-deletion."]
+            elif r < 0.42:
+                out.append(ln)
+        elif ln.startswith("snote(") and ln.endswith(")-deletion."):
+            r = rng.random()
+            if r < 0.2:
+                out.append(ln)  # exact duplicate: one line
+            elif r < 0.3 and ln.endswith("])-deletion."):
+                out.append(ln[:-len("])-deletion.")] + ",dup])-deletion.")  # same id, other text: both dropped
+        elif ln.startswith("insertion-note("):
+            r = rng.random()
+            if r < 0.2:
+                out.append(ln)
+        elif ln.startswith("sustain(") and rng.random() < 0.1:
+            out.append(ln)
+        if rng.random() < 0.03:
+            out.append("")
+    if rng.random() < 0.5:  # move some of the added lines to the end (conflicts far apart)
+        tail = [x for i, x in enumerate(out) if i % 7 == 3 and (x.endswith("-deletion.") or x.startswith("insertion-"))]
+        out = out + tail
+    with open(path, "w") as f:
+        f.write("\n".join(out) + "\n")
+
+
+# ----------------------------------------------------------------------------
+# run
+
+
+def k1_matcher(replay_obj):
+    """C08-K1: the alignment has no match of a note with a duration -> exporter cannot build its time map"""
+    if not isinstance(replay_obj, dict) or replay_obj.get("status") != "save_error":
+        return False
+    case = replay_obj.get("case") or {}
+    grace = {n["id"] for n in case.get("notes", []) if n.get("grace")}
+    onsets = {n["id"]: n["on"] for n in case.get("notes", [])}
+    m = [a for a in case.get("alignment", []) if a["label"] == "match" and a["score_id"] not in grace]
+    return len(m) == 0
+
+
+def sub_case(case, keep_ids):
+    keep = set(keep_ids)
+    c = dict(case)
+    c["notes"] = [n for n in case["notes"] if n["id"] in keep]
+    c["alignment"] = [a for a in case["alignment"] if a.get("score_id") is None or a["score_id"] in keep]
+    used = {a["performance_id"] for a in c["alignment"] if "performance_id" in a}
+    c["pnotes"] = [p for p in case["pnotes"] if p["id"] in used]
+    return c
+
+
+class _Timeout(Exception):
+    pass
+
+
+def run_guarded(case, workdir, name="case", seconds=60):
+    import signal
+
+    def h(*a):
+        raise _Timeout()
+    old = signal.signal(signal.SIGALRM, h)
+    signal.alarm(seconds)
+    try:
+        return run_impl(case, workdir, name)
+    except _Timeout:
+        return dict(status="load_error", error="no result after %d s (save_match/load_match does not terminate)" % seconds)
+    finally:
+        signal.alarm(0)
+        signal.signal(signal.SIGALRM, old)
+
+
+def shrink(case, clause, workdir):
+    ids = [n["id"] for n in case["notes"]]
+
+    def fails(sub):
+        c = sub_case(case, sub)
+        if not c["notes"]:
+            return False
+        try:
+            b = oracle(c, run_guarded(c, workdir, "shrink", 20))
+        except Exception:
+            return False
+        return any(x[0] == clause for x in b)
+    try:
+        small = core.ddmin(ids, fails) if len(ids) <= 40 else ids
+    except Exception:
+        small = ids
+    c = sub_case(case, small)
+    if clause not in ("pedal",):
+        c2 = dict(c)
+        c2["controls"] = []
+        try:
+            if any(x[0] == clause for x in oracle(c2, run_guarded(c2, workdir, "shrink", 20))):
+                c = c2
+        except Exception:
+            pass
+    return c
+
+
+def features(case):
+    f = []
+    if case["pickup"]:
+        f.append("pickup")
+    if len(case["tsigs"]) > 1:
+        f.append("ts_change")
+    if len({t[2] for t in case["tsigs"]}) > 1:
+        f.append("ts_den_change")
+    if any(t[2] != 4 for t in case["tsigs"]):
+        f.append("non_quarter_meter")
+    if len(case["ksigs"]) > 1:
+        f.append("ks_change")
+    if any(n["tie"] for n in case["notes"]):
+        f.append("ties")
+    if any(n["grace"] for n in case["notes"]):
+        f.append("grace")
+    labels = {a["label"] for a in case["alignment"]}
+    f += sorted("al_" + x for x in labels)
+    if case["controls"]:
+        f.append("pedal")
+    if case["divs"] % 3 == 0:
+        f.append("triplet_grid")
+    firsts = {}
+    for n in case["notes"]:
+        for mi in range(len(case["bounds"]) - 1):
+            if case["bounds"][mi] <= n["on"] < case["bounds"][mi + 1]:
+                firsts[mi] = min(firsts.get(mi, 10 ** 9), n["on"] - case["bounds"][mi])
+    if any(v > 0 for v in firsts.values()):
+        f.append("bar_starts_with_rest")
+    return f
+
+
+def run(ctx):
+    ctx.rule = ("cases = generated (single-part score with one divisions value and complete last measure, performed part, "
+                "alignment, ppq, mpq) -> save_match -> file -> load_match(create_score=True); non-trivial = distinct case with at "
+                "least one of: pickup, time-signature change, non-quarter meter, key change, tie, grace note, non-match alignment "
+                "label, pedal events, bar starting with a rest; plus stressed copies of the written files (duplicated and "
+                "conflicting lines) and the fixture match files of tests/data/match")
+    ctx.trusted = ["Coq 8.16.1 kernel incl. vm_compute", "harness/props/c08.py (generator, observers, Coq term printers, Python mirror of the documented id resolution)",
+                   "partitura's line parser/formatter for single lines (property C07) and Part/PerformedPart constructors, note_array, beat_map (C01, C02, C05) used to build inputs and read results"]
+    ctx.assumptions = ["score: one part, one divisions value, complete last measure, every measure has at least one note onset (only note lines carry measure numbers), a pickup measure starts with a note, reduced offset/duration fractions have numerator and denominator <= 1024 (larger ones are approximated by the line codec, C07)",
+                       "performance: no two overlapping notes of one pitch (C14), times >= 0; tick values within 2^-20 of a rounding tie are skipped and counted",
+                       "performance note ids not starting with 'n' are compared after the documented 'n' prefixing; an exact repetition of a pedal event (same tick and value) is one line of the file",
+                       "alignment: every score note (chain head) appears once as match or deletion, every performed note once as match, insertion or ornament"]
+    ctx.matchers["C08-K1"] = k1_matcher
+    ok, why = ctx.coq_props(expect_min=15)
+    quick = ctx.tier == "quick"
+    ncases = 400 if quick else 5000
+    work = ctx.work
+    n_viol = 0
+    exp_terms, imp_terms, tk_terms, rd_terms, al_terms = [], [], [], [], []
+    exp_cases, imp_cases, tk_cases, rd_labels = [], [], [], []
+    skipped = 0
+    for i in range(ncases):
+        size = 1.0 if i % 5 else 2.0
+        case = gen_case(ctx.rng, size)
+        obs = run_guarded(case, work, "c%d" % i)
+        ctx.evaluations += 1
+        if obs["status"] == "build_error":
+            ctx.count("input_rejected_by_constructors")
+            continue
+        feats = features(case)
+        for f in feats:
+            ctx.count(f)
+        if feats:
+            ctx.nontrivial(json.dumps(case, sort_keys=True))
+        bad = oracle(case, obs)
+        if bad:
+            clause, msg = bad[0]
+            if n_viol < 8:
+                rep = dict(case=case, status=obs["status"], clause=clause, message=msg, all=[b[1] for b in bad[:6]])
+                if obs["status"] == "save_error" and k1_matcher(rep):
+                    ctx.violation(msg, rep)
+                    ctx.count("known:K1")
+                    continue
+                small = shrink(case, clause, work)
+                sb = oracle(small, run_guarded(small, work, "small"))
+                rep = dict(case=small, status=obs["status"], clause=clause, message=(sb or bad)[0][1], all=[b[1] for b in (sb or bad)[:6]])
+                ctx.violation("C08 %s: %s" % (clause, rep["message"]), rep)
+                n_viol += 1
+            continue
+        ctx.count("ok")
+        if i < 2:
+            ctx.sample(dict(case=dict((k, case[k]) for k in ("divs", "tsigs", "ksigs", "bounds", "pickup", "ppq", "mpq")),
+                            n_notes=len(case["notes"]), n_pnotes=len(case["pnotes"]), file_head=obs["text_lines"][8:14]))
+        t = export_term(case, obs)
+        if t is not None:
+            exp_terms.append(t)
+            exp_cases.append(case)
+        t = import_term(case, obs)
+        if t is not None:
+            imp_terms.append(t)
+            imp_cases.append(case)
+        else:
+            skipped += 1
+        for t in tick_terms(case, obs):
+            tk_terms.append(t)
+            tk_cases.append(case)
+        # O4 on the written file and on a stressed copy
+        if i % (3 if quick else 6) == 0:
+            path = os.path.join(work, "s%d.match" % i)
+            with open(path, "w") as f:
+                f.write("\n".join(obs["text_lines"]) + "\n")
+            b1, _, _ = check_reader(path, "written:%d" % i, ctx, rd_terms, al_terms, rd_labels)
+            stress_file(ctx.rng, obs["text_lines"], path)
+            b2, raw, got = check_reader(path, "stressed:%d" % i, ctx, rd_terms, al_terms, rd_labels)
+            ctx.count("stressed_files")
+            if len(raw) != len(got):
+                ctx.nontrivial("stress:%d:%d:%d" % (i, len(raw), len(got)))
+            # loading the stressed file still gives a performance and a score
+            from partitura.io.importmatch import load_match
+            try:
+                with warnings.catch_warnings():
+                    warnings.simplefilter("ignore")
+                    perf, al2, scr = load_match(path, create_score=True)
+                ids = [n["id"] for n in perf[0].notes]
+                if len(ids) != len(set(ids)):
+                    b2.append("performed notes duplicated after loading a file with duplicate lines")
+                sids = [n.id for n in scr[0].notes_tied]
+                if len(sids) != len(set(sids)):
+                    b2.append("score notes duplicated after loading a file with duplicate lines")
+            except Exception as e:
+                b2.append("load_match fails on a file with duplicate lines: %s: %s" % (type(e).__name__, str(e)[:200]))
+            for b in (b1 + b2)[:2]:
+                if n_viol < 8:
+                    with open(path) as f:
+                        ctx.violation("C08 duplicate handling: " + b, dict(clause="reader", message=b, file_text=f.read().splitlines()))
+                    n_viol += 1
+            try:
+                os.remove(path)
+            except OSError:
+                pass
+    ctx.count("import_terms_skipped", skipped)
+    ctx.log("generated cases done")
+    # fixtures of all historical versions
+    fx_dir = os.path.join(core.REPO, "tests", "data", "match")
+    for fn in sorted(os.listdir(fx_dir)):
+        if not fn.endswith(".match"):
+            continue
+        path = os.path.join(fx_dir, fn)
+        try:
+            bad, raw, got = check_reader(path, "fixture:" + fn, ctx, rd_terms, al_terms, rd_labels)
+            from partitura.io.importmatch import load_match
+            with warnings.catch_warnings():
+                warnings.simplefilter("ignore")
+                perf, al2, scr = load_match(path, create_score=True)
+            ids = [n["id"] for n in perf[0].notes]
+            if len(ids) != len(set(ids)):
+                bad.append("performed note ids duplicated in the loaded performance")
+            want = {fmt_pid(c[2]) for c in got if c[2] is not None}
+            if set(ids) != want:
+                bad.append("loaded performance notes %d differ from played-note lines %d" % (len(set(ids)), len(want)))
+            sids = [n.id for n in scr[0].notes_tied]
+            if len(sids) != len(set(sids)):
+                bad.append("score note ids duplicated in the loaded score")
+        except Exception as e:
+            bad = ["loading fixture raises %s: %s" % (type(e).__name__, str(e)[:300])]
+        ctx.count("fixtures")
+        ctx.nontrivial("fixture:" + fn)
+        for b in bad[:2]:
+            ctx.violation("C08 fixture %s: %s" % (fn, b), dict(clause="fixture", fixture=fn, message=b))
+    ctx.log("fixtures done")
+    if not ok:
+        if not ctx.violations:
+            ctx.violation("proof obligations of Props/C08.v no longer check: " + why, {"theorem_or_build": why}, no_input=True)
+        return
+    # correspondence
+    cap = 1500 if quick else 15000
+    if len(tk_terms) > cap:  # evenly spaced sample of the tick terms (exact dyadic rationals are large literals)
+        step = len(tk_terms) / float(cap)
+        idx = sorted({int(k * step) for k in range(cap)})
+        tk_terms, tk_cases = [tk_terms[k] for k in idx], [tk_cases[k] for k in idx]
+    for name, terms, cases, checker, what in (
+            ("export", exp_terms, exp_cases, "chk_case_export", "model encode_pos/enc_dur = measure:beat, offset, duration written by matchfile_from_alignment"),
+            ("import", imp_terms, imp_cases, "chk_import", "model divisions/bar times/decode_divs/decode_dur = divisions, onsets and durations of the part loaded by part_from_matchfile"),
+            ("ticks", tk_terms, tk_cases, "chk_tick", "model sec_to_tick/tick_to_sec = ticks written and seconds loaded"),
+            ("reader", rd_terms, rd_labels, "chk_reader", "model validate(unique_first(lines)) = note lines returned by load_matchfile (written, stressed and fixture files)"),
+            ("alignment", al_terms, rd_labels, "chk_alignment", "model alignment_of = alignment_from_matchfile")):
+        try:
+            failing = ctx.coq_failing(name, IMPORTS, DEFS, terms, checker, shard=150 if name in ("export", "import") else 400)
+        except RuntimeError as e:
+            ctx.obligation("correspondence: %s" % what, False, str(e)[-800:])
+            ctx.violation("correspondence machinery failed for %s: %s" % (name, str(e)[-600:]), {"name": name}, no_input=True)
+            continue
+        ctx.obligation("correspondence: %s (%d terms)" % (what, len(terms)), not failing, failing[:5])
+        ctx.log("correspondence %s: %d terms, %d failing" % (name, len(terms), len(failing)))
+        for j in failing[:3]:
+            c = cases[j]
+            ctx.violation("model and implementation disagree (%s): %s" % (name, what),
+                          dict(clause="correspondence:" + name, case=c if isinstance(c, dict) else None, label=None if isinstance(c, dict) else c,
+                               term=terms[j][:3000]))
+    ctx.extra["exhaustive"] = False
+
+
+def replay(obj):
+    r = obj.get("replay", obj)
+    print(json.dumps({k: v for k, v in obj.items() if k != "replay"}, indent=1, default=str)[:2000])
+    if isinstance(r, dict) and r.get("case"):
+        case = r["case"]
+        wd = os.path.join(core.WORKROOT, "C08_replay")
+        obs = run_guarded(case, wd, "replay")
+        print("case: divs=%s tsigs=%s ksigs=%s bounds=%s pickup=%s ppq=%s mpq=%s notes=%d pnotes=%d" % (
+            case["divs"], case["tsigs"], case["ksigs"], case["bounds"], case["pickup"], case["ppq"], case["mpq"], len(case["notes"]), len(case["pnotes"])))
+        print("status:", obs["status"], obs.get("error", ""))
+        for ln in obs.get("text_lines", [])[:60]:
+            print("  |", ln)
+        for b in oracle(case, obs):
+            print("VIOLATED %s: %s" % b)
+        import shutil
+        shutil.rmtree(wd, ignore_errors=True)
+    elif isinstance(r, dict) and r.get("file_text"):
+        print("\n".join(r["file_text"][:80]))
+        print(r.get("message"))
+    else:
+        print(json.dumps(r, indent=1, default=str)[:3000])
+    return 0
